@@ -49,6 +49,10 @@ HexDigitOf(v) == IF v < 10 THEN 48 + v ELSE 87 + v
 RECURSIVE HexText(_)
 HexText(n) == IF n < 16 THEN <<HexDigitOf(n)>> ELSE HexText(n \div 16) \o <<HexDigitOf(n % 16)>>
 
+\* position of the first byte b at or after p (0 = none)
+RECURSIVE FindB(_, _, _)
+FindB(s, b, p) == IF p > Len(s) THEN 0 ELSE IF s[p] = b THEN p ELSE FindB(s, b, p + 1)
+
 \* ------------------------------------------------------------------ (a) chunked grammar
 \* bytes python's str.strip() removes (latin-1 decoded) / int(x, 16) may tolerate
 PyBlank == {9, 10, 11, 12, 13, 28, 29, 30, 31, 32, 133, 160}
@@ -70,7 +74,7 @@ SizeClass(line) ==
 
 RECURSIVE PC(_, _, _)
 PC(w, p, acc) ==
-  LET eol == IF p > Len(w) THEN 0 ELSE FindFrom(w, <<LF>>, p) IN
+  LET eol == FindB(w, LF, p) IN
   IF eol = 0 THEN [st |-> "malformed", pay |-> acc, nxt |-> Len(w) + 1]      \* unterminated / missing header
   ELSE LET raw  == SubSeq(w, p, eol - 1)
            line == IF Len(raw) > 0 /\ raw[Len(raw)] = CR THEN SubSeq(raw, 1, Len(raw) - 1) ELSE raw
@@ -97,26 +101,24 @@ ParseChunked(w) == PC(w, 1, <<>>)
 \* reads = <<[n, got, exc]>> in order, until the first exception / EOF (got = <<>> for n > 0);
 \* fin = "eof" | "exc" | "bound" (the driver gave up: no progress).  Returns a clause name or "ok".
 RECURSIVE JudgeReads(_, _, _, _, _)
-JudgeReads(P, reads, i, out, fin) ==
+JudgeReads(P, reads, i, pos, fin) ==          \* pos = number of payload bytes delivered so far
   IF P.st = "unclaimed" THEN "ok"
   ELSE IF i > Len(reads) THEN
-       (IF fin = "bound" THEN "NoProgress"
-        ELSE IF fin = "cl" THEN "ok"
-        ELSE "TraceShape")
+       (IF fin = "bound" THEN "NoProgress" ELSE "TraceShape")
   ELSE LET r == reads[i] IN
        IF r.exc # "" THEN
             (IF P.st = "complete" THEN "SpuriousError"
              ELSE IF r.exc # "OSError" THEN "MalformedIsIOError"
              ELSE "ok")
-       ELSE LET out2 == out \o r.got IN
-            IF Len(r.got) > r.n THEN "OverLongRead"
-            ELSE IF ~IsPrefixOf(out2, P.pay) THEN "DechunkPrefix"
-            ELSE IF r.n > 0 /\ r.got = <<>> THEN
+       ELSE LET k == Len(r.got) IN
+            IF k > r.n THEN "OverLongRead"
+            ELSE IF pos + k > Len(P.pay) \/ (k > 0 /\ r.got # SubSeq(P.pay, pos + 1, pos + k)) THEN "DechunkPrefix"
+            ELSE IF r.n > 0 /\ k = 0 THEN
                  (IF P.st = "malformed" THEN "MalformedIsIOError"          \* clean EOF on broken framing
-                  ELSE IF out2 # P.pay THEN "BodyTruncated" ELSE "ok")
-            ELSE JudgeReads(P, reads, i + 1, out2, fin)
+                  ELSE IF pos # Len(P.pay) THEN "BodyTruncated" ELSE "ok")
+            ELSE JudgeReads(P, reads, i + 1, pos + k, fin)
 
-JudgeDechunk(w, reads, fin) == JudgeReads(ParseChunked(w), reads, 1, <<>>, fin)
+JudgeDechunk(w, reads, fin) == JudgeReads(ParseChunked(w), reads, 1, 0, fin)
 
 \* ------------------------------------------------------------------ model of DechunkedInput
 \* s = [rpos (1-based position in the wire), len, done]; the underlying file blocks until EOF
@@ -129,7 +131,7 @@ RECURSIVE RStripB(_)
 RStripB(s) == IF s # <<>> /\ s[Len(s)] \in PyBlank THEN RStripB(SubSeq(s, 1, Len(s) - 1)) ELSE s
 
 \* rfile.readline(): <<line including its LF, new position>>
-ReadLine(w, p) == LET eol == IF p > Len(w) THEN 0 ELSE FindFrom(w, <<LF>>, p) IN
+ReadLine(w, p) == LET eol == FindB(w, LF, p) IN
                   IF eol = 0 THEN <<Drop(w, p - 1), Len(w) + 1>> ELSE <<SubSeq(w, p, eol), eol + 1>>
 
 \* read_chunk_len(): value, or -1 for OSError  (int(line.strip(), 16) on strict / negative / junk texts only)
@@ -175,9 +177,16 @@ ClientBody(chunked, wb) == IF chunked THEN LET P == ParseChunked(wb) IN
                            ELSE [ok |-> TRUE, body |-> wb]
 
 \* ------------------------------------------------------------------ (c) text helpers
-RECURSIVE SplitCRLF(_)
-SplitCRLF(s) == LET p == FindFrom(s, CRLF, 1) IN
-                IF p = 0 THEN <<s>> ELSE <<SubSeq(s, 1, p - 1)>> \o SplitCRLF(Drop(s, p + 1))
+\* One pass over a message head: the lines up to the first empty line.
+\* [ok (an empty line was found), lines, body (1-based position of the first body byte)]
+RECURSIVE HeadScan(_, _, _, _)
+HeadScan(s, p, start, acc) ==
+  IF p >= Len(s) THEN [ok |-> FALSE, lines |-> Append(acc, SubSeq(s, start, Len(s))), body |-> Len(s) + 1]
+  ELSE IF s[p] = CR /\ s[p + 1] = LF
+       THEN (IF p = start /\ acc # <<>> THEN [ok |-> TRUE, lines |-> acc, body |-> p + 2]
+             ELSE HeadScan(s, p + 2, p + 2, Append(acc, SubSeq(s, start, p - 1))))
+       ELSE HeadScan(s, p + 1, start, acc)
+HeadOf(s) == HeadScan(s, 1, 1, <<>>)
 
 RECURSIVE LStripSP(_)
 LStripSP(s) == IF s # <<>> /\ Head(s) \in {SP, TAB} THEN LStripSP(Tail(s)) ELSE s
@@ -259,7 +268,7 @@ RECURSIVE FoldH(_, _)
 FoldH(lines, env) ==
   IF lines = <<>> THEN env
   ELSE LET ln   == Head(lines)
-           c    == FindFrom(ln, <<COLON>>, 1)
+           c    == FindB(ln, COLON, 1)
            name == SubSeq(ln, 1, c - 1)
            val  == RStripSP(LStripSP(Drop(ln, c)))
            k0   == EnvKey(name)
@@ -273,39 +282,39 @@ HasKey(env, key) == \E i \in 1..Len(env) : env[i][1] = key
 
 \* raw request bytes -> what the application must see
 ParseRequest(raw) ==
-  LET he    == FindFrom(raw, <<CR, LF, CR, LF>>, 1)
-      lines == SplitCRLF(SubSeq(raw, 1, he - 1))
+  LET hd    == HeadOf(raw)
+      lines == hd.lines
       rl    == lines[1]
-      s1    == FindFrom(rl, <<SP>>, 1)
-      s2    == FindFrom(rl, <<SP>>, s1 + 1)
+      s1    == FindB(rl, SP, 1)
+      s2    == FindB(rl, SP, s1 + 1)
       tgt   == SplitTarget(SubSeq(rl, s1 + 1, s2 - 1))
       env0  == FoldH(Tail(lines), <<>>)
       env   == IF tgt.abs /\ tgt.host # <<>> THEN
                   (IF HasKey(env0, K_HOST) THEN [i \in 1..Len(env0) |-> IF env0[i][1] = K_HOST THEN <<K_HOST, tgt.host>> ELSE env0[i]]
                    ELSE Append(env0, <<K_HOST, tgt.host>>))
                ELSE env0
-      rest  == Drop(raw, he + 3)
+      rest  == Drop(raw, hd.body - 1)
       chunked == LowerS(RStripB(LStripB(Lookup(env, K_TE)))) = CHUNKED
       clv   == Lookup(env, K_CL)
-  IN [ok |-> he > 0 /\ s1 > 1 /\ s2 > s1 + 1,
+  IN [ok |-> hd.ok /\ s1 > 1 /\ s2 > s1 + 1,
       method |-> SubSeq(rl, 1, s1 - 1), target |-> tgt, env |-> env, rest |-> rest, chunked |-> chunked,
       clen |-> IF clv # <<>> /\ AllDigits(clv) /\ Len(clv) <= 8 THEN DecNum(clv, 0) ELSE 0]
 
 \* raw response bytes -> [ok, proto (10 | 11), code (digits), reason, headers <<name, value>>, body]
 ParseResponse(got) ==
-  LET he    == FindFrom(got, <<CR, LF, CR, LF>>, 1)
-      lines == SplitCRLF(SubSeq(got, 1, he - 1))
+  LET hd    == HeadOf(got)
+      lines == hd.lines
       sl    == lines[1]
       okSL  == /\ Len(sl) >= 12
                /\ SubSeq(sl, 1, 7) = <<72, 84, 84, 80, 47, 49, 46>> /\ sl[8] \in {48, 49} /\ sl[9] = SP
                /\ AllDigits(SubSeq(sl, 10, 12)) /\ (Len(sl) = 12 \/ sl[13] = SP)
       hl    == Tail(lines)
-      okH   == \A i \in 1..Len(hl) : LET c == FindFrom(hl[i], <<COLON>>, 1) IN c > 1 /\ c < Len(hl[i]) /\ hl[i][c + 1] = SP
-  IN IF he = 0 \/ ~okSL \/ ~okH THEN [ok |-> FALSE, proto |-> 0, code |-> 0, reason |-> <<>>, headers |-> <<>>, body |-> <<>>]
+      okH   == \A i \in 1..Len(hl) : LET c == FindB(hl[i], COLON, 1) IN c > 1 /\ c < Len(hl[i]) /\ hl[i][c + 1] = SP
+  IN IF ~hd.ok \/ ~okSL \/ ~okH THEN [ok |-> FALSE, proto |-> 0, code |-> 0, reason |-> <<>>, headers |-> <<>>, body |-> <<>>]
      ELSE [ok |-> TRUE, proto |-> IF sl[8] = 49 THEN 11 ELSE 10, code |-> DecNum(SubSeq(sl, 10, 12), 0),
            reason |-> Drop(sl, 13),
-           headers |-> [i \in 1..Len(hl) |-> LET c == FindFrom(hl[i], <<COLON>>, 1) IN <<SubSeq(hl[i], 1, c - 1), Drop(hl[i], c + 1)>>],
-           body |-> Drop(got, he + 3)]
+           headers |-> [i \in 1..Len(hl) |-> LET c == FindB(hl[i], COLON, 1) IN <<SubSeq(hl[i], 1, c - 1), Drop(hl[i], c + 1)>>],
+           body |-> Drop(got, hd.body - 1)]
 
 \* is a a subsequence of b (order kept)
 RECURSIVE IsSubseq(_, _)
